@@ -107,6 +107,8 @@ svars == <<fsm, open, sentOpen, gotOpen, gotKA, hold, inq, fault, mayFault, clos
 vars  == <<svars, now>>
 
 NoFault == {}
+NotifMark == <<0, {}>>              \* kept in mayFault once a NOTIFICATION was consumed on this transport (no NOTIFICATION has code 0)
+GotNotif  == NotifMark \in mayFault
 Chk(name, ok) == IF ok THEN {} ELSE {name}
 
 Init ==
@@ -144,7 +146,7 @@ ConsumeEff(t, cfgHold) ==
        IN
        /\ inq' = Tail(inq)
        /\ fault' = IF Required(c, fsm) # {} THEN Required(c, fsm) ELSE fault
-       /\ mayFault' = mayFault \cup Permitted(c, fsm)
+       /\ mayFault' = mayFault \cup Permitted(c, fsm) \cup (IF c = "NOTIF" THEN {NotifMark} ELSE {})
                       \* RFC 4271 4.4: with a zero hold time KEEPALIVEs MUST NOT be sent; the code tolerates one, then 2/6
                       \cup (IF c = "KA" /\ fsm = "ESTABLISHED" /\ hold = 0 THEN {<<2, {6}>>, <<5, {3}>>} ELSE {})
        /\ closing' = (closing \/ c \in {"EOF", "NOTIF"})
@@ -165,7 +167,8 @@ Justified(code, sub, t) ==
     \/ fsm = "OPENSENT" /\ ~gotOpen /\ t - connAt >= OpenWait /\ <<code, sub>> = <<5, 1>>
 
 NotifyClause(code, sub, t) ==
-    IF Justified(code, sub, t) THEN {}
+    IF GotNotif THEN {"C10-notification-answers-a-notification-or-eof"}     \* never, whatever else would justify one (teardown, timer)
+    ELSE IF Justified(code, sub, t) THEN {}
     ELSE IF closing THEN {"C10-notification-answers-a-notification-or-eof"}
     ELSE IF <<code, sub>> = <<4, 0>> THEN {"C12-hold-timer-fired-without-H-of-silence"}
     ELSE IF fault # NoFault THEN {"C10-wrong-notification-code-for-the-error"}
